@@ -52,13 +52,50 @@ instance decCmdTail : (c : Cmd) → (tail : List Nat) → Decidable (CmdTail c t
   | .slur, _ | .octUp, _ | .octDown, _ | .revRest _, _ | .grace _ _ _, _ | .echoSet _ _, _ | .echo _, _ | .keyScale _, _
   | .keyMod _, _ | .drum _, _ | .simple _ _, _ | .bar, _ => isTrue trivial
 
-instance decCovered : (c : Cmd) → Decidable (Covered c)
+instance decOptTail : (o : Option EvClass) → (tail : List Nat) → Decidable (optTail o tail)
+  | some (.opt _ _ _ _), tail => inferInstanceAs (Decidable ((numSpan tail).1 = none))
+  | some (.noarg _ _), _ => isTrue trivial
+  | some (.num _ _), _ => isTrue trivial
+  | none, _ => isTrue trivial
+
+instance decLCmdTail : (c : Cmd) → (tail : List Nat) → Decidable (LCmdTail c tail)
+  | .simple _ (some n), tail => inferInstanceAs (Decidable (NumEnd (numBase n) tail))
+  | .simple s none, tail => inferInstanceAs (Decidable (optTail (evClass s) tail))
+  | .drum n, tail => inferInstanceAs (Decidable (NumEnd (numBase n) tail))
+  | .note l a d, tail => decCmdTail (.note l a d) tail
+  | .rest d, tail => decCmdTail (.rest d) tail
+  | .tie d, tail => decCmdTail (.tie d) tail
+  | .length d, tail => decCmdTail (.length d) tail
+  | .octave n, tail => decCmdTail (.octave n) tail
+  | .quantize n, tail => decCmdTail (.quantize n) tail
+  | .early n, tail => decCmdTail (.early n) tail
+  | .measure n, tail => decCmdTail (.measure n) tail
+  | .shuffle n, tail => decCmdTail (.shuffle n) tail
+  | .slur, _ | .octUp, _ | .octDown, _ | .revRest _, _ | .grace _ _ _, _ | .echoSet _ _, _ | .echo _, _ | .keyScale _, _
+  | .keyMod _, _ | .bar, _ => isTrue trivial
+
+instance decCovSimple : (o : Option EvClass) → (n : Option Num) → Decidable (covSimple o n)
+  | some (.noarg _ _), none => isTrue trivial
+  | some (.noarg _ _), some _ => isFalse (fun h => h)
+  | some (.opt _ _ _ _), none => isTrue trivial
+  | some (.opt _ _ _ _), some _ => isTrue trivial
+  | some (.num _ _), some _ => isTrue trivial
+  | some (.num _ _), none => isFalse (fun h => h)
+  | none, none => isFalse (fun h => h)
+  | none, some _ => isFalse (fun h => h)
+
+instance decLCovered : (c : Cmd) → Decidable (LCovered c)
+  | .simple s n => inferInstanceAs (Decidable (covSimple (evClass s) n))
+  | .drum _ => isTrue trivial
   | .note l _ _ => inferInstanceAs (Decidable (l < 8))
   | .rest _ | .tie _ | .length _ | .octave _ | .octUp | .octDown | .quantize _ | .early _
   | .measure _ | .shuffle _ | .slur => isTrue trivial
-  | .revRest _ | .grace _ _ _ | .echoSet _ _ | .echo _ | .keyScale _ | .keyMod _ | .drum _ | .simple _ _ | .bar => isFalse (fun h => h)
+  | .revRest _ | .grace _ _ _ | .echoSet _ _ | .echo _ | .keyScale _ | .keyMod _ | .bar => isFalse (fun h => h)
 
-instance decCmdNums (t : Track) : (c : Cmd) → Decidable (CmdNums t c)
+instance decLCmdNums (t : Track) : (c : Cmd) → Decidable (LCmdNums t c)
+  | .simple _ (some n) => inferInstanceAs (Decidable (NumRange n))
+  | .simple _ none => isTrue trivial
+  | .drum n => inferInstanceAs (Decidable (NumRange n))
   | .note _ _ d => inferInstanceAs (Decidable (DurNums d))
   | .rest d => inferInstanceAs (Decidable (DurNums d))
   | .tie d => inferInstanceAs (Decidable (DurNums d))
@@ -70,13 +107,13 @@ instance decCmdNums (t : Track) : (c : Cmd) → Decidable (CmdNums t c)
   | .shuffle n => inferInstanceAs (Decidable (NumRange n))
   | .slur => inferInstanceAs (Decidable (t.addSlur.2 = 0))
   | .octUp | .octDown | .revRest _ | .grace _ _ _ | .echoSet _ _ | .echo _ | .keyScale _
-  | .keyMod _ | .drum _ | .simple _ _ | .bar => isTrue trivial
+  | .keyMod _ | .bar => isTrue trivial
 
 instance decCmdsOk : (t : Track) → (cs : List Cmd) → Decidable (CmdsOk t cs)
   | _, [] => isTrue trivial
   | t, c :: cs =>
-    have := decCmdsOk (cmdTrack t c) cs
-    inferInstanceAs (Decidable (Covered c ∧ CmdNums t c ∧ CmdsOk (cmdTrack t c) cs))
+    have := decCmdsOk (lcmdTrack t c) cs
+    inferInstanceAs (Decidable (LCovered c ∧ LCmdNums t c ∧ CmdsOk (lcmdTrack t c) cs))
 
 instance decToksOk : (ts : List Tok) → (e : List Nat) → Decidable (ToksOk ts e)
   | [], _ => isTrue trivial
@@ -86,7 +123,7 @@ instance decToksOk : (ts : List Tok) → (e : List Nat) → Decidable (ToksOk ts
   | .bar :: ts, e => decToksOk ts e
   | .cmd c :: ts, e =>
     have := decToksOk ts e
-    inferInstanceAs (Decidable (CmdTail c (toksText ts e) ∧ ToksOk ts e))
+    inferInstanceAs (Decidable (LCmdTail c (toksText ts e) ∧ ToksOk ts e))
 
 instance decEndOk : (e : List Nat) → Decidable (EndOk e)
   | [] => isTrue (Or.inl rfl)
@@ -134,6 +171,7 @@ instance decLinesOk (ids : List Nat) : (r : Bool) → (ls : List LLine) → Deci
 /-! ### bodies with blocks -/
 
 instance decCmdStart (c : Nat) : Decidable (CmdStart c) := inferInstanceAs (Decidable (_ ∨ _))
+instance decLCmdStart (c : Nat) : Decidable (LCmdStart c) := inferInstanceAs (Decidable (_ ∨ _))
 instance decStop (c : Nat) : Decidable (Stop c) := inferInstanceAs (Decidable (_ ∨ _))
 
 instance decStopEnd : (e : List Nat) → Decidable (StopEnd e)
